@@ -929,7 +929,9 @@ theorem layout_rowwise_explicit (hdr dest : Str) (p1 p2 : Row) (names units : Li
     intro r hr
     simp only [Function.comp, id]
     exact List.take_left' (hrows r hr)
-  simp only [htake, hstr, if_true, hstrip, hr]
+  have hnl : ¬ (units.map Cell.str ++ List.replicate k Cell.none).length < names.length := by
+    simp [hlen]
+  simp only [hnl, if_false, htake, hstr, if_true, hstrip, hr]
 
 theorem storeCell_names (cols : List Column) (f : Column → Str) (h : ∀ c ∈ cols, textOK (f c) = true) :
     (cols.map (fun c => Cell.str (f c))).map storeCell = (cols.map f).map Cell.str := by
@@ -1154,7 +1156,8 @@ theorem layout_transposed_explicit (hdr dest : Str) (p1 p2 : Row) (trip : List (
   have hrows := transposedRows_padded (trip.map (fun x => x.2.2)) m k (by simp [hne])
     (by intro c hc; obtain ⟨x, hx', rfl⟩ := List.mem_map.1 hc; exact hlen x hx')
     (by intro c hc; obtain ⟨x, hx', rfl⟩ := List.mem_map.1 hc; exact hnb x hx')
-  simp only [hany, Bool.false_eq_true, if_false, hnames, hpn, htake, hunits, hstr, if_true, hstrip, hdrop, hrows]
+  have hnl : ¬ ((trip.map (fun x => x.2.1)).map Cell.str).length < (trip.map (fun x => x.1)).length := by simp
+  simp only [hany, Bool.false_eq_true, if_false, hnames, hpn, htake, hunits, hnl, hstr, if_true, hstrip, hdrop, hrows]
 
 
 def tripOf (naRep : Str) (t : TableVal) : List (Str × Str × Row) :=
